@@ -178,5 +178,22 @@ def handleSame : Handler := fun input _ =>
       return { agree, spec, model := " | ".intercalate notes, tags := ("same" :: tags).eraseDups }
   | _ => .malformed "same"
 
-def handlers : List (String × Handler) := [("C08.filter", handleFilter), ("C10.same", handleSame)]
+/-- request `(library statement lint variation program)`, implementation `(got expected)`: the diagnostics of the program with a
+filter comment directly before one statement, and what the plain program's diagnostics prescribe (harness-side oracle: exactly the
+diagnostics of that lint starting inside the statement are removed / re-labelled) -/
+def handleDirect : Handler := fun input impl =>
+  match input, impl with
+  | .list [lib, stmt, lint, variation, _prog], .list [.list got, .list expected] =>
+    let g := got.filterMap Sexp.asString?
+    let e := expected.filterMap Sexp.asString?
+    let missing := e.filter fun x => !g.contains x
+    let extra := g.filter fun x => !e.contains x
+    let covered := e.length != g.length || g.any (fun x => (x.splitOn "|").head? == lint.asString?) || variation.asString? == some "allow"
+    { agree := true,
+      spec := if missing.isEmpty && extra.isEmpty && g.length == e.length then none
+        else some s!"[C08] a `{variation.asString?.getD ""}({lint.asString?.getD ""})` comment directly before the statement `{stmt.asString?.getD ""}` (library {lib.asString?.getD ""}) does not change exactly the diagnostics it covers: unexpected {extra.take 2}, missing {missing.take 2}",
+      tags := [s!"direct-{lib.asString?.getD ""}"] ++ (if covered then ["direct-covers"] else []) }
+  | _, _ => .malformed "direct"
+
+def handlers : List (String × Handler) := [("C08.filter", handleFilter), ("C10.same", handleSame), ("C08.direct", handleDirect)]
 end Driver.C08
